@@ -8,7 +8,8 @@
 
 using namespace mcrt;
 using hx::Pair;
-using LR = gmlc::libguarded::lr_guarded<Pair>;
+using LR_M = gmlc::libguarded::lr_guarded<Pair>;                     // default writer mutex
+using LR_T = gmlc::libguarded::lr_guarded<Pair, std::timed_mutex>;  // the timed reader forms are used with a timed mutex
 
 namespace {
 int g_mod_invoked, g_mod_returned;
@@ -45,7 +46,10 @@ const char* formn[] = {"lock_shared", "try_lock_shared", "try_lock_shared_for", 
 
 std::string text(const Prog& p)
 {
-    std::string s = std::string("lr_guarded<Pair>") + (p.noncommuting ? " [non-commuting functors]" : "") +
+    bool timed = false;
+    for (auto& r : p.readers)
+        if (r.form >= 2) timed = true;
+    std::string s = std::string(timed ? "lr_guarded<Pair,timed_mutex>" : "lr_guarded<Pair>") + (p.noncommuting ? " [non-commuting functors]" : "") +
         (p.unwinding ? " [modify called from a destructor during stack unwinding]" : "");
     for (int m : p.writers) s += " | writer: modify x" + std::to_string(m);
     for (auto& r : p.readers)
@@ -53,23 +57,33 @@ std::string text(const Prog& p)
     return s;
 }
 
-LR::shared_handle acquire(LR* lr, int form)
+template<class LR>
+typename LR::shared_handle acquire(LR* lr, int form)
 {
     using namespace std::chrono_literals;
 #ifdef MODE_C14
     noblock_begin("lr_guarded read acquisition", 12);
 #endif
-    LR::shared_handle h = form == 0 ? lr->lock_shared() :
-        form == 1                   ? lr->try_lock_shared() :
-        form == 2                   ? lr->try_lock_shared_for(1ms) :
-                                      lr->try_lock_shared_until(std::chrono::steady_clock::now() + 1ms);
+    auto take = [&]() -> typename LR::shared_handle {
+        if constexpr (std::is_same_v<LR, LR_T>) {
+            return form == 0 ? lr->lock_shared() :
+                form == 1    ? lr->try_lock_shared() :
+                form == 2    ? lr->try_lock_shared_for(1ms) :
+                               lr->try_lock_shared_until(std::chrono::steady_clock::now() + 1ms);
+        } else {
+            // programs that use a timed form run on the timed-mutex instantiation
+            return form == 0 ? lr->lock_shared() : lr->try_lock_shared();
+        }
+    };
+    typename LR::shared_handle h = take();
 #ifdef MODE_C14
     noblock_end();
 #endif
     return h;
 }
 
-void body(const Prog& p)
+template<class LR>
+void body_t(const Prog& p)
 {
     g_mod_invoked = g_mod_returned = 0;
     hx::win_reset();
@@ -109,11 +123,11 @@ void body(const Prog& p)
     for (auto& r : p.readers) {
         ids.push_back(spawn([lr, r, nc = p.noncommuting] {
             int last = -1;
-            std::optional<LR::shared_handle> prev;
+            std::optional<typename LR::shared_handle> prev;
             for (int i = 0; i < r.acq; i++) {
                 stamp();
                 int lo = g_mod_returned;
-                LR::shared_handle h = acquire(lr, r.form);
+                typename LR::shared_handle h = acquire(lr, r.form);
                 stamp();
                 int hi = g_mod_invoked;
                 MC_CHECK(bool(h), "null-handle", "lr_guarded %s returned a null handle", formn[r.form]);
@@ -160,7 +174,8 @@ void body(const Prog& p)
 // i.e. it is about to flip and drain), and only then releases: the writer is delayed only by the
 // handle that is still held and must complete once it is released.
 bool g_functor_ran;
-void body_held(int readers, int mods)
+template<class LR>
+void body_held_t(int readers, int mods)
 {
     g_functor_ran = false;
     hx::win_reset();
@@ -170,7 +185,7 @@ void body_held(int readers, int mods)
         std::vector<int> ids;
         for (int r = 0; r < readers; r++)
             ids.push_back(spawn([lr, r, &in] {
-                LR::shared_handle h = acquire(lr, r % 4);
+                typename LR::shared_handle h = acquire(lr, r % 4);
                 int v = hx::read_pair(*h, "reader under shared handle");
                 in[r].set();
                 await([] { return g_functor_ran; });
@@ -200,7 +215,8 @@ void body_held(int readers, int mods)
 // Writers whose functor throws (half-way through its update) on its first or on its second
 // application: the modification must still be all-or-nothing for readers holding / taking handles.
 struct Boom {};
-void body_throwing(int throw_at, int readers, int acq)
+template<class LR>
+void body_throwing_t(int throw_at, int readers, int acq)
 {
     hx::win_reset();
     LR* lr = new LR(0);
@@ -232,7 +248,7 @@ void body_throwing(int throw_at, int readers, int acq)
             ids.push_back(spawn([lr, acq, r] {
                 int last = -1;
                 for (int i = 0; i < acq; i++) {
-                    LR::shared_handle h = acquire(lr, (r + i) % 4);
+                    typename LR::shared_handle h = acquire(lr, (r + i) % 4);
                     int v = hx::read_pair(*h, "reader under shared handle");
                     point();
                     int v2 = hx::read_pair(*h, "reader under shared handle (re-read)");
@@ -257,7 +273,8 @@ void body_throwing(int throw_at, int readers, int acq)
 // before the modification and releases once the writer is inside modify(); reader 2 takes a handle only
 // after the writer has switched the counting side (observed on the implementation's flag) and keeps it
 // until the writer has FINISHED.  The writer may only be delayed by reader 1.
-void body_late_reader()
+template<class LR>
+void body_late_reader_t()
 {
     g_functor_ran = false;
     hx::win_reset();
@@ -267,7 +284,7 @@ void body_late_reader()
         bool counting0 = lr->m_countingLeft.load();
         std::vector<int> ids;
         ids.push_back(spawn([lr, &r1_in] {
-            LR::shared_handle h = lr->lock_shared();
+            typename LR::shared_handle h = lr->lock_shared();
             (void)hx::read_pair(*h, "reader 1");
             r1_in.set();
             await([] { return g_functor_ran; });
@@ -286,7 +303,7 @@ void body_late_reader()
         }));
         ids.push_back(spawn([lr, counting0, &writer_done] {
             await([lr, counting0] { return lr->m_countingLeft.load() != counting0; });
-            LR::shared_handle h = lr->lock_shared();
+            typename LR::shared_handle h = lr->lock_shared();
             int v = hx::read_pair(*h, "reader 2 (arrived after the writer switched sides)");
             MC_CHECK(v == 1, "stale-read", "a reader arriving after the flip observed %d", v);
             writer_done.wait();  // deadlock detector: the writer must not wait for this handle
@@ -295,6 +312,20 @@ void body_late_reader()
     }
     delete lr;
 }
+#endif
+
+void body(const Prog& p)
+{
+    bool timed = false;
+    for (auto& r : p.readers)
+        if (r.form >= 2) timed = true;
+    if (timed) body_t<LR_T>(p);
+    else body_t<LR_M>(p);
+}
+void body_held(int readers, int mods) { body_held_t<LR_T>(readers, mods); }  // uses all four reader forms
+void body_throwing(int throw_at, int readers, int acq) { body_throwing_t<LR_T>(throw_at, readers, acq); }
+#ifdef MODE_C14
+void body_late_reader() { body_late_reader_t<LR_M>(); }
 #endif
 
 void make_items(const Options& o, std::vector<Item>& items)
